@@ -559,6 +559,12 @@ def run_case(case, col, verbose=False):
         else:
             sm = (sm[0], nondense_variant(sm[1], how))
         head += f" ({which} ids {how}: {np.asarray(tm[2] if which == 'treatment' else sm[1]).tolist()})"
+    if mp.get("alone"):
+        if mp["which"] == "treatment":
+            sm = None
+        else:
+            tm = None
+        head += " (supplied without the other mapping)"
     col.evaluations += 1
     col.transitions += 1
     try:
@@ -617,6 +623,9 @@ def _nondense_cases(spec, control, tm_ids, sm_ids):
             if nondense_applicable(ids, how):
                 yield {"kind": "screen", "control": control, "spec": spec,
                        "mapping": {"type": "nondense", "which": which, "how": how, "source": spec}}
+                # the same non-dense mapping supplied on its own (the other mapping left to be derived)
+                yield {"kind": "screen", "control": control, "spec": spec,
+                       "mapping": {"type": "nondense", "which": which, "how": how, "source": spec, "alone": True}}
 
 
 _TIER = {"tier": "quick"}
